@@ -4,6 +4,7 @@
 import Bp7.Model.Admin
 import Bp7.Lemmas.Codec
 import Bp7.Lemmas.SpecEq
+import Bp7.Spec.Admin
 namespace Bp7.C12
 open Bp7
 
@@ -148,14 +149,6 @@ open Bp7
 /-- **C12 (layout).** The encoding is the RFC 9171 §6.1 layout: `[record type code, content]`; a
     status report is `[status items, reason, source EID, creation timestamp (, offset, length)]`,
     each status item `[asserted (, time)]`. Stated against the independent item-tree encoder. -/
-def Spec.itemItem (i : StatusItem) : Spec.Item :=
-  if i.asserted && i.statusRequested then .arr [.simple (if i.asserted then 21 else 20), .uint i.time]
-  else .arr [.simple (if i.asserted then 21 else 20)]
-
-def Spec.reportItem (r : StatusReport) : Spec.Item :=
-  .arr ([.arr (r.items.map Spec.itemItem), .uint r.reason, Spec.eidItem r.source, .arr [.uint r.ts, .uint r.seq]]
-        ++ (if r.fragLen ≠ 0 then [.uint r.fragOff, .uint r.fragLen] else []))
-
 theorem encBool_eq (b : Bool) : encBool b = Spec.encItem (.simple (if b then 21 else 20)) := by
   cases b <;> rfl
 
@@ -196,6 +189,13 @@ theorem report_eq_spec (r : StatusReport) (h : normal (.report r) = true) :
 theorem admin_eq_spec (sr : StatusReport) (h : normal (.report sr) = true) :
     encAdmin (.report sr) = Spec.encItem (.arr [.uint 1, Spec.reportItem sr]) := by
   simp [encAdmin, Spec.encItem, Spec.encItems, encArrayHead_eq, encUint_eq 1 (by omega), report_eq_spec sr h]
+
+/-- **C12 (layout, records of unknown type).** `[record type code, content as a byte string]`. -/
+theorem admin_unknown_eq_spec (c : Nat) (d : Bytes) (hc : c < U32) (hd : d.length < U64) :
+    encAdmin (.unknown c d) = Spec.encItem (Spec.adminItem (.unknown c d)) := by
+  rw [U32_eq] at hc
+  rw [U64_eq] at hd
+  simp [encAdmin, Spec.adminItem, Spec.encItem, Spec.encItems, encArrayHead_eq, encUint_eq c (by omega), encBytes_eq d hd]
 
 /-- **C12 (status-report bundles).** For a non-fragment bundle `B` with a non-null report-to
     endpoint, the generated report bundle is an administrative-record bundle addressed to `B`'s
